@@ -1,26 +1,239 @@
-//! C03: not implemented yet.
+//! C03: every IR optimisation pass preserves program behaviour.
+//! Monitor (hook H1): the same program compiled with the default (debug) pipeline and with a
+//! pipeline that has extra registered passes inserted before the mandatory lowering passes;
+//! both binaries run on the same inputs, observations compared; the result must also still be
+//! accepted by the backend.
 use crate::common::*;
+use crate::engine::*;
+use crate::irhook::*;
+use crate::swrun::*;
 use crate::{Plan, Prop};
+use rand::Rng;
+use serde_json::{json, Value};
+use std::panic::AssertUnwindSafe;
 
 pub static META: PropertyMeta = PropertyMeta {
     id: "C03",
     level: "exploration",
-    rule: "not implemented",
-    assumptions: &[],
-    floor_evaluations: 1,
-    floor_nontrivial: 2,
-    required_counters: &[],
+    rule: "SwGen programs x variants of the debug pass pipeline: each registered transform inserted alone, each preceded by inline / mem2reg, random sequences of 2..8 transforms, and the release (O1) group with one pass removed, duplicated or two adjacent passes swapped - inserted at a random position before the mandatory Fuel lowering passes; baseline and variant binaries run on 10 input vectors; an evaluation = one (program, variant); non-trivial = an inserted pass modified the IR, the variant bytecode differs from the baseline and at least one execution returned normally; distinct = hash of (source, variant)",
+    assumptions: &[
+        "fuel-vm 0.66 is the trusted execution substrate",
+        "removal of invalid arithmetic whose result is unobservable is tolerated (documented undefined behaviour), arbitrated by the reference interpreter",
+        "a panic or verifier failure inside a pass is C04's subject and only counted here",
+    ],
+    floor_evaluations: 100,
+    floor_nontrivial: 20,
+    required_counters: &["variants_compared", "variant_bytecode_differs", "executions_compared", "inserted_pass_modified_ir"],
 };
 
 pub static PROP: Prop = Prop {
     meta: &META,
-    plan: |_t| Plan { nshards: 1, budget_s: 1.0, mem_gib: 0 },
-    shard: |_ctx| {
-        let mut r = ShardResult::default();
-        r.harness_fault = Some("not implemented".into());
-        r
-    },
-    replay: crate::no_replay,
+    plan: |t| Plan { nshards: 16, budget_s: t.pick(60.0, 1200.0), mem_gib: 6 },
+    shard,
+    replay,
     extra: crate::no_extra,
     subcommand: crate::no_subcommand,
 };
+
+const O1: [&str; 18] = ["mem2reg", "fn-dedup-release", "inline", "arg_pointee_mutability_tagger", "simplify-cfg", "globals-dce", "dce", "inline", "arg_pointee_mutability_tagger", "ccp", "const-folding", "simplify-cfg", "cse", "const-folding", "simplify-cfg", "globals-dce", "dce", "fn-dedup-release"];
+
+fn gen_variant(rng: &mut rand::rngs::StdRng, k: u64, res: &mut ShardResult) -> (usize, Vec<String>) {
+    let pick = |rng: &mut rand::rngs::StdRng| TRANSFORMS[rng.gen_range(1..TRANSFORMS.len())].to_string();
+    // default debug list: lower-init-aggr, fn-dedup-debug, inline, globals-dce, dce, <mandatory...>
+    let pos = rng.gen_range(1..=5);
+    let extra = match k % 5 {
+        0 => {
+            res.count("variant.single");
+            vec![pick(rng)]
+        }
+        1 => {
+            res.count("variant.after_inline_or_mem2reg");
+            vec![if rng.gen_bool(0.5) { "inline".to_string() } else { "mem2reg".to_string() }, pick(rng)]
+        }
+        2 | 3 => {
+            res.count("variant.random_sequence");
+            let n = rng.gen_range(2..=8);
+            (0..n).map(|_| pick(rng)).collect()
+        }
+        _ => {
+            res.count("variant.o1_perturbed");
+            let mut o1: Vec<String> = O1.iter().map(|s| s.to_string()).collect();
+            match rng.gen_range(0..3) {
+                0 => {
+                    let i = rng.gen_range(0..o1.len());
+                    o1.remove(i);
+                }
+                1 => {
+                    let i = rng.gen_range(0..o1.len());
+                    let p = o1[i].clone();
+                    o1.insert(i, p);
+                }
+                _ => {
+                    let i = rng.gen_range(0..o1.len() - 1);
+                    o1.swap(i, i + 1);
+                }
+            }
+            o1
+        }
+    };
+    (pos, extra)
+}
+
+pub struct Baseline {
+    pub bytecode: Vec<u8>,
+    pub obs: Vec<Observation>,
+}
+
+pub fn baseline(am: &mut Amortised, case: &Case) -> Option<Baseline> {
+    let c = match catch(AssertUnwindSafe(|| am.compile("gencase", &case.src, Profile::Debug))) {
+        Ok(Ok(c)) => c,
+        _ => {
+            let _ = std::fs::remove_dir_all(am.last_dir());
+            return None;
+        }
+    };
+    let obs = case.script_data.iter().map(|d| run_script(&c.pkg.bytecode.bytes, d)).collect();
+    let b = Baseline { bytecode: c.pkg.bytecode.bytes.clone(), obs };
+    am.remove(&c);
+    Some(b)
+}
+
+fn run_variant(am: &mut Amortised, case: &Case, base: &Baseline, pos: usize, extra: &[String], res: &mut ShardResult) {
+    res.evaluations += 1;
+    let cfg = HookCfg { insert: Some((pos, extra.to_vec())), ..Default::default() };
+    let (r, log) = with_hook(cfg, false, || catch(AssertUnwindSafe(|| am.compile("gencase", &case.src, Profile::Debug))));
+    let replay = case.replay_json(json!({"pos": pos, "extra": extra}));
+    let sig_src = hash64(format!("{}{pos}{extra:?}", case.src).as_bytes());
+    let c = match r {
+        Err(_) => {
+            res.count("variant_pass_panicked_see_C04");
+            let _ = std::fs::remove_dir_all(am.last_dir());
+            return;
+        }
+        Ok(Err(_)) => {
+            let _ = std::fs::remove_dir_all(am.last_dir());
+            if log.ir_error.is_some() {
+                res.count("variant_verifier_failure_see_C04");
+            } else if log.invoked && log.current.is_none() {
+                // all passes ran and verified, the backend rejected what the passes produced
+                res.violation(format!("backend-rejects-variant:{:?}", extra.iter().collect::<std::collections::BTreeSet<_>>()), format!("the baseline pipeline is accepted but with passes {extra:?} inserted at {pos} the backend rejects the program"), replay);
+            } else {
+                res.count("variant_not_compiled_other");
+            }
+            return;
+        }
+        Ok(Ok(c)) => c,
+    };
+    res.count("variants_compared");
+    // which inserted passes modified the IR
+    let ran_mod: Vec<&(String, bool)> = log.ran.iter().filter(|(p, m)| *m && extra.contains(p)).collect();
+    if !ran_mod.is_empty() {
+        res.count("inserted_pass_modified_ir");
+    }
+    for (p, _) in &ran_mod {
+        res.count(&format!("modified.{p}"));
+    }
+    for p in extra {
+        res.count(&format!("inserted.{p}"));
+    }
+    let differs = c.pkg.bytecode.bytes != base.bytecode;
+    if differs {
+        res.count("variant_bytecode_differs");
+    }
+    let mut any_returned = false;
+    for (k, data) in case.script_data.iter().enumerate() {
+        let v = run_script(&c.pkg.bytecode.bytes, data);
+        let b = &base.obs[k];
+        res.count("executions_compared");
+        if !b.outcome.reverted() {
+            any_returned = true;
+        }
+        if b.same_behaviour(&v) {
+            continue;
+        }
+        if b.outcome.reverted() != v.outcome.reverted() {
+            let non_reverting = if b.outcome.reverted() { &v } else { b };
+            match compare_case(case, k, non_reverting) {
+                Cmp::DeadUbTolerated => {
+                    res.count("dead_invalid_arithmetic_removed_tolerated");
+                    continue;
+                }
+                Cmp::Inconclusive(n) => {
+                    res.inconclusive(n);
+                    continue;
+                }
+                _ => {}
+            }
+        }
+        // which side does the reference interpreter support?
+        let side = match (compare_case(case, k, b), compare_case(case, k, &v)) {
+            (Cmp::Agree, _) => "the variant is wrong according to the reference interpreter",
+            (_, Cmp::Agree) => "the baseline is wrong according to the reference interpreter",
+            _ => "neither side matches the reference interpreter",
+        };
+        res.violation(format!("pass-changes-behaviour:{sig_src:016x}"), format!("[input {k}] passes {extra:?} inserted at {pos}: baseline {} / variant {} ({side})", b.short(), v.short()), replay);
+        break;
+    }
+    if differs && any_returned && !ran_mod.is_empty() {
+        res.note_nontrivial(sig_src);
+    }
+    if res.samples.len() < 2 {
+        res.sample(json!({"inserted_at": pos, "passes": extra, "list_run": log.list_run, "modified": log.ran.iter().filter(|(_, m)| *m).map(|(p, _)| p.clone()).collect::<Vec<_>>(), "source_head": case.src.lines().take(10).collect::<Vec<_>>()}));
+    }
+    am.remove(&c);
+}
+
+fn shard(ctx: &ShardCtx) -> ShardResult {
+    let mut res = ShardResult::default();
+    let mut am = Amortised::new(&ctx.work());
+    if let Err(e) = am.warm() {
+        res.harness_fault = Some(format!("std does not compile: {e}"));
+        return res;
+    }
+    let per_program = ctx.tier.pick(6u64, 16u64);
+    let mut i = ctx.first_index;
+    let mut cur: Option<(u64, Case, Option<Baseline>)> = None;
+    let clock = ctx.clock();
+    while clock.left() {
+        let pi = i / per_program;
+        if cur.as_ref().map(|c| c.0) != Some(pi) {
+            let mut scratch = ShardResult::default();
+            let case = case_at(ctx.seed ^ 0x0c03, ctx.shard, pi, 10, &mut scratch);
+            ctx.begin_case(i, &format!("// origin: {:?} (baseline)\n{}", case.origin, case.src), &res);
+            let base = baseline(&mut am, &case);
+            ctx.end_case();
+            if base.is_none() {
+                res.count("baseline_not_compiled");
+            }
+            cur = Some((pi, case, base));
+        }
+        let (_, case, base) = cur.as_ref().unwrap();
+        if let Some(base) = base {
+            let mut rng = ctx.rng(i ^ 0x5eed_0000);
+            let (pos, extra) = gen_variant(&mut rng, i, &mut res);
+            ctx.begin_case(i, &format!("// origin: {:?} insert {extra:?} at {pos}\n{}", case.origin, case.src), &res);
+            run_variant(&mut am, case, base, pos, &extra, &mut res);
+            ctx.end_case();
+        }
+        i += 1;
+    }
+    res
+}
+
+fn replay(v: &Value) -> ShardResult {
+    let mut res = ShardResult::default();
+    let work = work_dir("C03").join("replay");
+    clean_dir(&work);
+    let mut am = Amortised::new(&work);
+    let Some(case) = case_from_replay(v) else {
+        res.harness_fault = Some("the generator no longer reproduces the recorded program".into());
+        return res;
+    };
+    let pos = v["extra"]["pos"].as_u64().unwrap_or(1) as usize;
+    let extra: Vec<String> = serde_json::from_value(v["extra"]["extra"].clone()).unwrap_or_default();
+    match baseline(&mut am, &case) {
+        Some(b) => run_variant(&mut am, &case, &b, pos, &extra, &mut res),
+        None => res.inconclusive("baseline does not compile"),
+    }
+    res
+}
